@@ -126,3 +126,14 @@ Print Assumptions C12_merge_items_from_a.
 Print Assumptions C12_merge_keeps_b.
 Print Assumptions C12_merge_keeps_a.
 Print Assumptions C12_filter_order.
+
+(* ---- int64 (second audit, N10): Order and Merge only compare and copy times - no arithmetic, nothing wraps: the models
+   above are the int64 models.  Closure: int64 times in, the same int64 times out. ---- *)
+From Astisub Require Import Kit.Int64 Proofs.Ops64Proofs.
+Theorem C12_int64 : forall l, Forall times64 l -> Forall times64 (order l).
+Proof. exact (order_closed in_i64). Qed.
+Theorem C12_int64_merge : forall a b pr ps, Forall times64 (items a) -> Forall times64 (items b) ->
+  Forall times64 (items (merge a b pr ps)).
+Proof. exact (merge_closed in_i64). Qed.
+Print Assumptions C12_int64.
+Print Assumptions C12_int64_merge.
